@@ -31,7 +31,7 @@ func sameVals(a interface {
 func runC09(c *ev.Ctx) {
 	c.Rule = "multi-epoch DAGs (2..4 planned epochs, sealing frame seeded in 1..15, next validator set unchanged / re-weighted / shrunk / grown / swapped; every 4th DAG in the sleeper regime where multi-frame roots decide frames). " +
 		"Oracle right after the Process call whose EndBlock returned a set: epoch = old+1; validators (canonical ids and weights) equal the returned set; last decided frame = 0; no further block was emitted by that call after the sealing block; the next block carries the new epoch and frame 1; " +
-		"and Reset twins: (a) an instance that lived through an unrelated warm-up epoch and (b) an instance stopped in the MIDDLE of the previous epoch (live election state) are Reset(epoch, set) and fed only the new epoch's events: their blocks equal the sealing instance's blocks for that epoch and the reference model's. " +
+		"and Reset twins: (a) an instance that lived through an unrelated warm-up epoch and (b) an instance stopped in the MIDDLE of the previous epoch (live election state) are Reset(epoch, set), and (c) an instance that sealed the previous epoch itself and was restarted right after the seal and/or at a random later point of the new epoch, are fed only the new epoch's events: their blocks equal the sealing instance's blocks for that epoch and the reference model's. " +
 		"non-trivial = distinct DAG fingerprint with >=1 seal whose new set changes the canonical order or membership and >=1 block decided in the new epoch"
 	c.Assumptions = []string{"cheaters < 1/3", "events of the old epoch arriving after the seal are dropped by the driver"}
 	nD := c.Pick(400, 6000)
@@ -143,9 +143,34 @@ func runC09(c *ev.Ctx) {
 			ed := d.Epochs[ei]
 			want := blocksOf(t.Blocks, ed.Plan.Epoch)
 			newEpochBlocks += len(want)
-			for variant := 0; variant < 2; variant++ {
+			for variant := 0; variant < 3; variant++ {
 				var tw *cons.Inst
-				if variant == 0 {
+				if variant == 2 {
+					// an instance that seals the previous epoch itself and is restarted right after the seal:
+					// what the seal left in the databases must be the complete, clean new epoch
+					prev := d.Epochs[ei-1]
+					tw = cons.NewInst(prev.Plan.Epoch, prev.Plan.Validators(), policy, cons.InstCfg{Index: cons.IndexCfg((i + 2) % 3)})
+					for _, e := range prev.Events {
+						if tw.Epoch() != prev.Plan.Epoch {
+							break
+						}
+						if err := tw.Process(e); err != nil {
+							viol(cons.DEventRejected, map[string]interface{}{"event": e.Name, "err": err.Error(), "twin": "sealing-then-restarted"})
+							return
+						}
+					}
+					if tw.Epoch() != ed.Plan.Epoch {
+						c.Count("sealing_twin_did_not_seal", 1)
+						continue
+					}
+					if r.Intn(2) == 0 { // otherwise the first restart comes after some of the new epoch's events
+						if p, _ := ev.Try(func() { tw = tw.Restart() }); p != nil {
+							viol("restart-after-seal-fails", map[string]interface{}{"panic": fmt.Sprint(p), "epoch": ed.Plan.Epoch})
+							return
+						}
+						c.Count("restarts_right_after_seal", 1)
+					}
+				} else if variant == 0 {
 					// lived through an unrelated epoch
 					wt := cons.Run(&cons.DAG{Cfg: &cons.GenCfg{Plans: cfg.Plans[ei:]}, Epochs: nil}, r, cons.RunOpts{Kinds: func(int) cons.OrderKind { return cons.OrdGen }, WarmReset: true})
 					tw = wt.Inst
@@ -172,9 +197,20 @@ func runC09(c *ev.Ctx) {
 					viol("reset-state-wrong", map[string]interface{}{"epoch": tw.Epoch(), "want_epoch": ed.Plan.Epoch, "last_decided": tw.Store.GetLastDecidedFrame(), "validators": tw.Store.GetValidators().String()})
 					return
 				}
-				for _, e := range cons.Order(r, ed.Events, cons.OrdRandom) {
+				restartAt := -1
+				if variant == 2 && len(ed.Events) > 0 {
+					restartAt = r.Intn(len(ed.Events))
+				}
+				for k, e := range cons.Order(r, ed.Events, cons.OrdRandom) {
 					if tw.Epoch() != ed.Plan.Epoch {
 						break
+					}
+					if k == restartAt {
+						if p, _ := ev.Try(func() { tw = tw.Restart() }); p != nil {
+							viol("restart-after-seal-fails", map[string]interface{}{"panic": fmt.Sprint(p), "epoch": ed.Plan.Epoch, "at_event": k})
+							return
+						}
+						c.Count("restarts_inside_new_epoch", 1)
 					}
 					if err := tw.Process(e); err != nil {
 						viol("reset-twin-rejects-event", map[string]interface{}{"event": e.Name, "err": err.Error(), "variant": variant, "epoch": ed.Plan.Epoch})
